@@ -802,7 +802,7 @@ func main() {
 	hx.Must(os.MkdirAll(*out, 0o755))
 	thorough := *tier == "thorough"
 	sum := hx.NewSummary("C18")
-	sum.Rule = "needs graphs: every edge set (self loops included) over 1-4 jobs in ascending and descending order of the needs entries, references in both spellings; 3 jobs with every needs list up to a length bound over {a, A, b, c, x (dangling), empty}; 5-job graphs (random edge sets in quick, a 2^25-bijective stride in thorough); random graphs of 6-40 jobs (DAG, one embedded simple cycle, dense) with dangling/duplicate/case-variant references. non-trivial = the rule reports a missing reference or a cycle; distinct = distinct workflow text"
+	sum.Rule = "needs graphs: every edge set (self loops included) over 1-4 jobs in ascending and descending order of the needs entries, references in both spellings; 3 jobs with every needs list up to a length bound over {a, A, b, c, x (dangling), empty}; 5-job graphs (random edge sets of random density; thorough: half of them a bijective stride through all 2^25 edge sets); random graphs of 6-40 jobs (DAG, one embedded simple cycle, dense) with dangling/duplicate/case-variant references. non-trivial = the rule reports a missing reference or a cycle; distinct = distinct workflow text"
 	hangReport = func(src string) {
 		sum.OracleFails = append(sum.OracleFails, failure{What: "the rule does not terminate on this input within 20 s", Key: "hang:" + src, Workflow: src})
 		sum.Write(filepath.Join(*out, "summary.json"))
@@ -822,9 +822,6 @@ func main() {
 		hx.Must(err)
 		bulk[i] = bufio.NewWriterSize(bulkF[i], 1<<20)
 	}
-	bulkSrcF, err := os.Create(filepath.Join(*out, "bulk-sources.txt"))
-	hx.Must(err)
-	bulkSrc := bufio.NewWriterSize(bulkSrcF, 1<<20)
 	nbulk := 0
 	ncoq := 0
 	distinct := 0
@@ -881,9 +878,8 @@ func main() {
 				}
 				if bulkOK(rs) {
 					fmt.Fprintln(bulk[nbulk%*shards], bulkCase(sp, rs))
-					// index of the case inside its shard = nbulk / shards
-					sb, _ := json.Marshal(rs.src)
-					fmt.Fprintln(bulkSrc, string(sb))
+					// index of the case inside its shard = nbulk / shards; the driver of the
+					// check rebuilds the workflow text of a disagreeing case from its line
 					nbulk++
 				}
 				if coqEvery > 0 && (s+i)%coqEvery == 0 {
@@ -940,16 +936,17 @@ func main() {
 	if cnt5 < 0 {
 		cnt5 = 12000
 		if thorough {
-			cnt5 = 1500000
+			cnt5 = 4000000
 		}
 	}
 	var five []*spec
 	for i := 0; i < cnt5; i++ {
 		var mask uint64
-		if thorough {
+		if thorough && i%4 < 2 {
+			// a bijective stride through all 2^25 edge sets (dense graphs, many cycles)
 			mask = (uint64(i)*0x9E3779B1 + uint64(*seed)) & (1<<25 - 1)
 		} else {
-			// random density
+			// random density 1..12 of 25 (sparse graphs: DAGs, few cycles)
 			d := 1 + r.Intn(12)
 			for b := 0; b < 25; b++ {
 				if r.Chance(d, 25) {
@@ -957,7 +954,7 @@ func main() {
 				}
 			}
 		}
-		five = append(five, graphOf(5, mask, i%2 == 1, "five"))
+		five = append(five, graphOf(5, mask, i%3 == 1, "five"))
 		if len(five) >= 200000 {
 			process(five, reps, 100003)
 			five = five[:0]
@@ -987,13 +984,11 @@ func main() {
 	sum.Extra["shards"] = *shards
 	hx.Must(cases.Flush())
 	hx.Must(srcs.Flush())
-	hx.Must(bulkSrc.Flush())
 	for i := range bulk {
 		hx.Must(bulk[i].Flush())
 		bulkF[i].Close()
 	}
 	casesF.Close()
 	srcsF.Close()
-	bulkSrcF.Close()
 	sum.Write(filepath.Join(*out, "summary.json"))
 }
